@@ -1217,12 +1217,14 @@ class Evaluator:
             if name == 'isinstance':
                 return self.lift(lambda x: self.isinstance_(x, args[1], st), args[0])
             if name == 'len':
-                its = self.items(st, args[0])
-                if its is not None:
-                    return Scalar(len(its))
-                if isinstance(args[0], SymObj):
-                    return Scalar(A.sym(f'len({args[0].path})'))
-                raise Undecided('len')
+                def _len(x: AV) -> AV:
+                    its = self.items(st, x)
+                    if its is not None:
+                        return Scalar(len(its))
+                    if isinstance(x, SymObj):
+                        return Scalar(A.sym(f'len({x.path})'))
+                    raise Undecided('len')
+                return self.lift(_len, args[0])
             if name == 'bool':
                 def b(x):
                     tr = self.truth(x, st)
